@@ -78,6 +78,11 @@ func (s *Service) relayHttpReq(ctx context.Context, p p2p.Peer, stream p2p.Strea
 	s.logger.Tracef("relayHttpReq: from %s got req: %s", p.Address, httpReq.Url)
 
 	urls := strings.Split(httpReq.Url, "/")
+	if len(urls) < 3 {
+		httpResp.Status = http.StatusBadRequest
+		httpResp.Body = []byte("Bad Request")
+		return reqWriter(httpResp)
+	}
 
 	addr, ok := s.getDomainAddr(urls[1], urls[2])
 	if !ok {
